@@ -70,7 +70,9 @@ def atom_text(e, env):
             op = {"<": ">", ">": "<", "<=": ">=", ">=": "<=", "==": "==", "!=": "!="}[op]
         if op == "!=":
             op, neg = "==", True
-        if re.fullmatch(r"-?\d+", tb):
+        lit, oth = (strip(b), strip(a)) if re.fullmatch(r"-?\d+", _unparen(norm(_subst(show(strip(b)), env)))) else (strip(a), strip(b))
+        integral = lit.get("k") == "Int" and re.search(r"size_t|size_type|\bint\b|\blong\b|unsigned|\bshort\b", oth.get("t") or "") is not None and not re.search(r"double|float", oth.get("t") or "")
+        if re.fullmatch(r"-?\d+", tb) and integral:
             # integer comparison: x >= k is x > k-1, x <= k is x < k+1
             if op == ">=":
                 op, tb = ">", str(int(tb) - 1)
@@ -151,6 +153,16 @@ def _run(stmts, env, val, boolean, opaque, ignore=None):
 
 
 def table(fn, boolean=False, opaque=(), ignore=None):
+    from verif import tree
+    old = tree.LAMBDA_FULL
+    tree.LAMBDA_FULL = True
+    try:
+        return _table(fn, boolean, opaque, ignore)
+    finally:
+        tree.LAMBDA_FULL = old
+
+
+def _table(fn, boolean=False, opaque=(), ignore=None):
     """(atoms, {valuation tuple: outcome}) with the atoms sorted; a valuation lists the truth values in atom order."""
     atoms = []
     while True:
